@@ -26,7 +26,7 @@ import (
 // set operators with matching modifiers, plus numbers and vector() operands for the static-comparison folding
 var frag = promqlgen.Alphabet{
 	Metrics:   []string{"foo", "bar"},
-	Matchers:  []string{"", `a="x"`, `a!="x"`, `a=~"x|y"`},
+	Matchers:  []string{"", `a="x"`, `a!="x"`, `a=~"x|y"`, `a="x", b="x"`},
 	Unary:     []string{"sum(%s)", "sum by(a) (%s)", "sum without(a) (%s)", "count by(a, b) (%s)", "min by(b) (%s)", "abs(%s)", "%s > 0", "%s * 2", "topk(1, %s)", "(%s)", "%s < 2", "%s == 1"},
 	RangeFns:  []string{"rate(%s[5m])", "max_over_time(%s[5m])"},
 	BinOps:    []string{"*", "/", ">", "==", "and", "or", "unless", "+", "<", "> bool", "!="},
@@ -34,6 +34,26 @@ var frag = promqlgen.Alphabet{
 	Scalars:   []string{"1", "2", "0"},
 	Extra:     []string{"vector(1)", "vector(2)", "vector(0)"},
 }
+
+var (
+	chainOps   = []string{"and", "unless", "*", "=="}
+	chainRight = []string{"bar", "sum(bar)", "sum by(a) (bar)", "vector(1)"}
+	reOps      = []string{"and", "unless", "*"}
+	reMod1     = []string{"", "on(a)", "ignoring(b)", "on(a, a)"}
+	reAgg      = []string{"sum without(a) (%s)", "sum without(a, a) (%s)", "sum by(b) (%s)", "sum by(b, b) (%s)", "sum by(a, b) (%s)", "min without(a, c) (%s)", "sum(%s)"}
+	reMod2     = []string{"on(b) group_left(a)", "on(b) group_left(a, a)", "ignoring(a) group_left(a)", "ignoring(a, a) group_left(a)", "ignoring(a, c) group_left(a)", "on(b) group_left()", "on(b, b) group_left(a)", "on(b) group_right(a)"}
+	reSel3     = []string{"foo", "bar", `foo{a="x"}`}
+	// a small alphabet for all expressions of <=3 operator nodes (thorough)
+	mini = promqlgen.Alphabet{
+		Metrics:   []string{"foo", "bar"},
+		Matchers:  []string{"", `a="x"`},
+		Unary:     []string{"sum(%s)", "sum by(a) (%s)", "sum without(a) (%s)", "abs(%s)"},
+		BinOps:    []string{"and", "*", "unless"},
+		Modifiers: []string{"", "on(a)", "ignoring(a)", "on(b) group_left(a)"},
+		Scalars:   []string{"1"},
+		Extra:     []string{"vector(1)"},
+	}
+)
 
 var (
 	engine  *promql.Engine
@@ -195,14 +215,14 @@ func class(reason, expr string) string {
 func body(c *explore.Chooser) *explore.Case {
 	var e promqlgen.Expr
 	var ok bool
-	nvar := 2
+	subs := []string{"ops1", "wrapped", "chain", "reinclude"}
 	if tier == "thorough" {
-		nvar = 3
+		subs = append(subs, "ops2", "mini3")
 	}
-	switch c.Free(nvar, "subspace") {
-	case 0:
+	switch subs[c.Free(len(subs), "subspace")] {
+	case "ops1":
 		e, ok = promqlgen.Gen(c, &frag, 1, "e")
-	case 1:
+	case "wrapped":
 		u := c.Free(len(frag.Unary), "outer")
 		var in promqlgen.Expr
 		in, ok = promqlgen.Gen(c, &frag, 1, "e")
@@ -212,8 +232,45 @@ func body(c *explore.Chooser) *explore.Case {
 		if ok {
 			e = promqlgen.Expr{Text: fmt.Sprintf(frag.Unary[u], in.Text), Metrics: in.Metrics, Ops: in.Ops + 1}
 		}
-	case 2:
+	case "chain":
+		// U2(U1(foo{..})) OP MOD R: what two stacked label transformations leave behind, seen by a join
+		u2 := frag.Unary[c.Free(len(frag.Unary), "u2")]
+		u1 := frag.Unary[c.Free(len(frag.Unary), "u1")]
+		sel := "foo"
+		if m := frag.Matchers[c.Free(len(frag.Matchers), "m")]; m != "" {
+			sel = "foo{" + m + "}"
+		}
+		op := chainOps[c.Free(len(chainOps), "op")]
+		mod := frag.Modifiers[c.Free(len(frag.Modifiers), "mod")]
+		r := chainRight[c.Free(len(chainRight), "r")]
+		l := fmt.Sprintf(u2, fmt.Sprintf(u1, sel))
+		if c.Free(2, "flip") == 1 {
+			l, r = r, l
+		}
+		e = promqlgen.Expr{Text: "(" + l + ") " + op + " " + mod + " (" + r + ")", Metrics: map[string]bool{"foo": true, "bar": true}, Ops: 3}
+		ok = true
+	case "reinclude":
+		// SEL OP MOD1 (AGG(bar) * MOD2 SEL3): a label removed by an aggregation (lists with repeated names too)
+		// and brought back by group_left/right, then needed by an outer join
+		sel := "foo"
+		if m := frag.Matchers[c.Free(len(frag.Matchers), "m")]; m != "" {
+			sel = "foo{" + m + "}"
+		}
+		op := reOps[c.Free(len(reOps), "op")]
+		mod1 := reMod1[c.Free(len(reMod1), "mod1")]
+		agg := reAgg[c.Free(len(reAgg), "agg")]
+		mod2 := reMod2[c.Free(len(reMod2), "mod2")]
+		sel3 := reSel3[c.Free(len(reSel3), "sel3")]
+		inner := fmt.Sprintf(agg, "bar") + " * " + mod2 + " " + sel3
+		if strings.Contains(mod2, "group_right") {
+			inner = sel3 + " * " + mod2 + " " + fmt.Sprintf(agg, "bar")
+		}
+		e = promqlgen.Expr{Text: sel + " " + op + " " + mod1 + " (" + inner + ")", Metrics: map[string]bool{"foo": true, "bar": true}, Ops: 3}
+		ok = true
+	case "ops2":
 		e, ok = promqlgen.Gen(c, &frag, 2, "e")
+	case "mini3":
+		e, ok = promqlgen.Gen(c, &mini, 3, "e")
 	}
 	if !ok || e.Scalar {
 		return &explore.Case{Skip: true}
